@@ -114,6 +114,10 @@ def get_next_imf(X, env_step_size=1, max_iters=1000, energy_thresh=None,
     """
     X = ensure_1d_with_singleton([X], ['X'], 'get_next_imf')
 
+    if not np.issubdtype(X.dtype, np.floating):
+        # Integer data (eg raw int16 counts) overflow when squared in the stopping metrics
+        X = X.astype(float)
+
     if envelope_opts is None:
         envelope_opts = {}
 
